@@ -373,6 +373,9 @@ impl TurnClient {
                 let mut stream = read.lock().await;
                 stream.read_exact(&mut header).await?;
                 let len = u16::from_be_bytes(header) as usize;
+                if len > buf.len() {
+                    bail!("TURN TCP frame too large: {} > {}", len, buf.len());
+                }
                 let mut offset = 0;
                 while offset < len {
                     let read = stream.read(&mut buf[offset..len]).await?;
